@@ -258,6 +258,13 @@ impl<Ef: LabEffect> Ctx<Ef> {
     }
 
     fn request_inner(&self, op: Op) -> BoxFuture<'static, u64> {
+        if crate::probe::on() {
+            return crate::probe::Probe::new(self.request_plain(op)).boxed();
+        }
+        self.request_plain(op)
+    }
+
+    fn request_plain(&self, op: Op) -> BoxFuture<'static, u64> {
         match self {
             Ctx::Cmd(c) => c.request_from_shell(op).map(|v| v.0).boxed(),
             Ctx::Legacy { op: c, .. } | Ctx::Mixed { op: c, .. } => c.request_from_shell(op).map(|v| v.0).boxed(),
@@ -283,6 +290,13 @@ impl<Ef: LabEffect> Ctx<Ef> {
     }
 
     fn stream_inner(&self, op: Op) -> BoxStream<'static, u64> {
+        if crate::probe::on() {
+            return crate::probe::Probe::new(self.stream_plain(op)).boxed();
+        }
+        self.stream_plain(op)
+    }
+
+    fn stream_plain(&self, op: Op) -> BoxStream<'static, u64> {
         match self {
             Ctx::Cmd(c) => c.stream_from_shell(op).map(|v| v.0).boxed(),
             Ctx::Legacy { op: c, .. } | Ctx::Mixed { op: c, .. } => c.stream_from_shell(op).map(|v| v.0).boxed(),
